@@ -15,6 +15,7 @@ import (
 	"strconv"
 	"strings"
 	"sync"
+	"time"
 
 	"verifharness/hxlib"
 
@@ -53,6 +54,10 @@ type scase struct {
 	Workers int    `json:"workers,omitempty"`
 	Each    int    `json:"each,omitempty"`
 	Seed    uint64 `json:"seed,omitempty"`
+	// failing-input search legs: kind "api" (package-level API), kind "long" (Each calls, Workers per time unit),
+	// kind "concurrent" with Stall > 0 (clock readings stalling up to Stall ms)
+	API   []apiStep `json:"api,omitempty"`
+	Stall int       `json:"stall_ms,omitempty"`
 }
 
 // ---- the fake clock ---------------------------------------------------------------------------
@@ -567,7 +572,62 @@ func enumerate(r *hxlib.Run, alphabet string, mid uint16, t0 int64, maxLen int) 
 }
 
 func startTimes(R *hxlib.Rand) []int64 {
-	return []int64{0, 1, 2, 1000, 21_000_000_000 + int64(R.Intn(1000000)), oMaxT - 2, oMaxT - 1, oMaxT}
+	return []int64{0, 1, 2, 1000, 21_000_000_000 + int64(R.Intn(1000000)), oMaxT - 2, oMaxT - 1, oMaxT,
+		// just below internal power-of-two crossings of the 37-bit time (k*2^15, k*2^16, k*2^31, k*2^32, k*2^33; odd and even k)
+		1<<15 - 1, 3<<16 - 2, 1<<31 - 1, 3<<31 - 2, 1<<32 - 1, 2<<32 - 2, 3<<32 - 1, 3<<33 - 2}
+}
+
+// crossings: the units k*2^b at which a narrower or differently signed internal representation of the time would wrap
+func crossings() []int64 {
+	var v []int64
+	for _, b := range []uint{15, 16, 31, 32, 33} {
+		for k := int64(1); k <= 5; k++ {
+			if x := k << b; x < oMaxT {
+				v = append(v, x)
+			}
+		}
+	}
+	return v
+}
+
+// straddle: small steps forward AND backward across the unit x, starting just below it: +1 +1 +1 -3 +5 -1 +2 -2 +4
+// (three rollbacks: all accepted), with a stand-still after each step.
+func straddle(R *hxlib.Rand, mid uint16, x int64, off int64) scase {
+	b := newBuilder(R, "crossing", genSpec{mid, x - off})
+	for _, d := range []int64{1, 1, 1, -3, 5, -1, 2, -2, 4} {
+		t := clamp(b.cur[0] + d)
+		b.at(0, t, t, t+1)
+		b.at(0, t, t, t+1)
+	}
+	return b.c
+}
+
+// longStall: the sequence of a unit is used up, the next call waits, and the clock stays at or below that unit for
+// `polls` consecutive readings of the wait loop (standing still, stepping back and forth below it) before it shows
+// the first unit above. Then: calls in that unit, three rollbacks (all must still be accepted: the stall burnt
+// none), the fourth (refused), and the clock passing the last issued unit again.
+func longStall(R *hxlib.Rand, mid uint16, t0 int64, polls int) scase {
+	b := newBuilder(R, "long-stall", genSpec{mid, t0})
+	b.letter(0, 'A')
+	cur := b.cur[0]
+	b.exhaust(0)
+	waits := make([]int64, 0, polls+1)
+	for i := 0; i < polls; i++ {
+		switch {
+		case i%97 == 13:
+			waits = append(waits, clamp(cur-1-int64(i%3)))
+		default:
+			waits = append(waits, cur)
+		}
+	}
+	up := cur + int64(R.Pick(1, 1, 2, 7))
+	waits = append(waits, up)
+	b.at(0, cur, waits...)
+	b.cur[0] = up
+	for _, l := range "SSBSBSBSBSJS" {
+		b.letter(0, byte(l))
+	}
+	return b.c
 }
 
 func randomCase(r *hxlib.Run, mids []uint16, maxLen int) scase {
@@ -613,20 +673,31 @@ func randomCase(r *hxlib.Run, mids []uint16, maxLen int) scase {
 // ---- concurrent callers of one generator ----------------------------------------------------------
 
 func concurrent(r *hxlib.Run, seed uint64, mid uint16, workers, each int) {
+	concurrentStall(r, seed, mid, workers, each, 0)
+}
+
+// stallMs > 0 (failing-input search): some twenty clock readings of the run — taken under the generator's mutex —
+// stall for 10..stallMs ms while the other callers keep calling.
+func concurrentStall(r *hxlib.Run, seed uint64, mid uint16, workers, each int, stallMs int) {
 	r.Case()
 	R := hxlib.NewRand(seed)
+	stallEvery := workers*each/20 + 1
+	noRollback := stallMs > 0 // (a rollback during a wait makes the waiting call poll for seconds: not this leg's subject)
 	t0 := int64(21_000_000_000) + int64(R.Intn(1000000))
 	cur := t0
 	reads, rollbacks, left := 0, 0, 1
 	clk.log = nil
 	clk.genf = func() int64 { // called under clk.mu
 		reads++
+		if stallMs > 0 && reads%stallEvery == stallEvery/2 {
+			time.Sleep(time.Duration(10+int(uint(reads)*7919%uint(stallMs-9))) * time.Millisecond)
+		}
 		if left > 0 {
 			left--
 			return cur
 		}
 		switch {
-		case rollbacks < oMaxBack && R.Chance(1, 6):
+		case !noRollback && rollbacks < oMaxBack && R.Chance(1, 6):
 			rollbacks++
 			cur -= int64(R.Range(1, 20))
 		case R.Chance(1, 5):
@@ -669,7 +740,7 @@ func concurrent(r *hxlib.Run, seed uint64, mid uint16, workers, each int) {
 	logCopy := append([]int64(nil), clk.log...)
 	clk.genf = nil
 	clk.mu.Unlock()
-	c := scase{Kind: "concurrent", Mid: mid, Workers: workers, Each: each, Seed: seed}
+	c := scase{Kind: "concurrent", Mid: mid, Workers: workers, Each: each, Seed: seed, Stall: stallMs}
 	var all []int64
 	for w := range ids {
 		if errs[w] != "" {
@@ -727,13 +798,29 @@ func main() {
 	if r.Replay != "" {
 		var c scase
 		r.LoadReplay(&c)
-		if c.Kind == "concurrent" {
-			concurrent(r, c.Seed, c.Mid, c.Workers, c.Each)
-		} else {
+		switch {
+		case c.Kind == "concurrent":
+			concurrentStall(r, c.Seed, c.Mid, c.Workers, c.Each, c.Stall)
+		case c.Kind == "api":
+			doAPI(r, c)
+		case c.Kind == "long":
+			r.Case()
+			fails, _ := runLong(c)
+			for _, f := range fails {
+				r.Fail(f.key, f.what, c)
+			}
+		default:
 			do(r, c)
 		}
 		r.Sample(c)
 		return
+	}
+	if r.Search {
+		searchLegs(r)
+		if r.Failed() {
+			r.Note("the search legs found a failing input; the ordinary generators were not run again")
+			return
+		}
 	}
 	boundaryMids := []uint16{1, 2, 1234, 0x3FFE, 0x3FFF, 0x4000, 0x4001, 0x7FFF, 0x8000, 0xC000, 0xFFFF, 0}
 
@@ -751,6 +838,26 @@ func main() {
 				do(r, b.c)
 			}
 		}
+	}
+	// 1b. small steps forward and backward across every internal power-of-two crossing of the 37-bit time
+	// (1b and 1c draw from a stream of their own: the cases of the other sections stay what they were)
+	R2 := hxlib.NewRand(r.Seed ^ 0xC09C09)
+	for _, x := range crossings() {
+		for _, off := range []int64{2, 1} {
+			do(r, straddle(R2, boundaryMids[R2.Intn(4)], x, off))
+			r.Count("crossing:straddled")
+		}
+	}
+	// 1c. a very long stall inside one call: the clock stays at or below the exhausted unit for 600+ polls of the
+	// wait loop (thorough: 1100+ and 2100+ as well)
+	stalls := []int{600 + R2.Intn(50)}
+	if r.Thorough() {
+		stalls = append(stalls, 1100+R2.Intn(100), 2100+R2.Intn(100))
+	}
+	for _, n := range stalls {
+		do(r, longStall(R2, uint16(R2.Range(1, 0x3FFF)), startTimes(R2)[R2.Pick(3, 4, 11)], n))
+		r.Count("long-stall:cases")
+		r.CountN("long-stall:polls", n)
 	}
 	// 2. every word over the step alphabet up to a bounded length
 	enumerate(r, alphabet, 1234, 21_000_000_000, r.Scale(3, 4))
@@ -812,7 +919,11 @@ func main() {
 	}
 	r.Note("observation: readings before the epoch (negative time units) are outside the model's domain; on the real code every such call was refused (oracle key no-error:before-epoch never fired)")
 	// 7. concurrent callers of one generator
-	for k := 0; k < r.Scale(3, 12); k++ {
+	nConc := r.Scale(3, 12)
+	if r.Search {
+		nConc = 5 // (a rollback during a wait makes a run take many seconds; the search has its own concurrent leg)
+	}
+	for k := 0; k < nConc; k++ {
 		concurrent(r, r.R.U64(), uint16(r.R.Range(1, 65535)), r.R.Range(2, 8), r.Scale(1500, 6000))
 	}
 }
